@@ -137,7 +137,7 @@ int main(int argc, char ** argv)
         if (failed && st.fails.size() < 1) st.fails.push_back({tape, out.failures, out.desc.str()});
       });
     } else {
-      const long n = std::max<long>(20, static_cast<long>(static_cast<double>(cases) * c.weight * static_cast<double>(sel.size()) / wsum));
+      const long n = std::max<long>(6, static_cast<long>(static_cast<double>(cases) * c.weight * static_cast<double>(sel.size()) / wsum));
       rc::detail::TestParams params;
       params.seed            = seed * 0x9e3779b97f4a7c15ull + name_hash(c.name);
       params.maxSuccess      = static_cast<int>(n);
@@ -148,7 +148,7 @@ int main(int argc, char ** argv)
 
       std::vector<uint64_t> last_fail;
       uint64_t idx    = 0;
-      long shrink_evals = 0;  // shrinking is bounded: after 2500 evaluations / 90 s further candidates "pass"
+      long shrink_evals = 0;  // shrinking is bounded: after 2500 evaluations / 25 s further candidates "pass"
       std::chrono::steady_clock::time_point shrink_t0{};
       const auto gen  = tape_gen(c.tape_len);
       const auto res  = rc::detail::checkTestable(
@@ -156,7 +156,7 @@ int main(int argc, char ** argv)
           const std::vector<uint64_t> tape = *gen;
           if (!last_fail.empty()) {
             if (shrink_evals == 0) shrink_t0 = std::chrono::steady_clock::now();
-            if (++shrink_evals > 2500 || std::chrono::steady_clock::now() - shrink_t0 > std::chrono::seconds(90)) return;
+            if (++shrink_evals > 2500 || std::chrono::steady_clock::now() - shrink_t0 > std::chrono::seconds(25)) return;
           }
           bc.put(c.name, tape);
           Ctx out;
@@ -192,7 +192,7 @@ int main(int argc, char ** argv)
         if (!(std::isalnum(static_cast<unsigned char>(ch)) || ch == '.' || ch == '_' || ch == '-')) ch = '_';
       const std::string path = faildir + "/fail-" + safe + "-s" + std::to_string(seed) + ".json";
       write_replay(path, c, seed, st.fails[0].tape, st.fails[0].failures, st.fails[0].decoded, "oracle");
-      std::cout << "CANDIDATE check=" << c.name << " replay=" << path << "\n";
+      std::cout << "CANDIDATE check=" << c.name << " replay=" << path << std::endl;
     }
     if (!report.empty()) write_report(report, all, seed, hashes);
   }
